@@ -317,6 +317,36 @@ def opReplace (fuel : Nat) (h : Heap H) (self : Id) (v : Value) : Option (Heap H
 
 def opPop (fuel : Nat) (h : Heap H) (self : Id) : Option (Heap H) := opReplace fuel h self .none
 
+/-- `replace` INCLUDING the branch `opReplace` leaves out: a list given for a node that sits in a scalar slot —
+    "it's assumed that the intention was to really replace the parent": `value = parent.args.get(key)`;
+    `if value.parent: value.parent.replace(expression)` (recursively), then `self`'s own pointers are cleared although
+    `self` is still held by the replaced-out parent (see `replace_list_in_scalar_slot_leaves_husk` in Properties/C08). -/
+def opReplaceRec : Nat → Heap H → Id → Value → Option (Heap H)
+  | 0, _, _, _ => none
+  | f + 1, h, self, v =>
+    match (h self).parent with
+    | none => some h
+    | some p =>
+      if v = .node p then some h
+      else
+        match (h self).argKey with
+        | none => some (if v = .node self then h else clearPtr h self)
+        | some k =>
+          if isListValue v && isOne (getKey k (h p).args) then
+            match getKey k (h p).args with
+            | some (.one c') =>
+              match (h c').parent with
+              | some q =>
+                match opReplaceRec f h q v with
+                | some h' => some (clearPtr h' self)
+                | none => none
+              | none => some (clearPtr h self)
+            | _ => none
+          else
+            match opSet (f + 1) h p k v (h self).index true with
+            | some h' => some (if v = .node self then h' else clearPtr h' self)
+            | none => none
+
 /-! ### construction: `cls()` — arguments are then given by `set` (what `__init__` does, minus the no-op invalidation) -/
 
 def opNew (h : Heap H) (id : Id) (cls : String) (raw : Bool) : Heap H :=
@@ -682,6 +712,50 @@ def repairLoop (self : Id) : Heap H → List (String × Arg) → Heap H
   | h, e :: r => repairLoop self (repairStep self h e) r
 
 def simplifyRepair (h : Heap H) (self : Id) : Heap H := repairLoop self h (h self).args
+
+/-! ### the builder layer (`_apply_builder`, `_apply_list_builder`, `_apply_child_list_builder`,
+      `_apply_conjunction_builder`, `_apply_cte_builder`, `_apply_set_operation`)
+
+  Every builder is: `instance = maybe_copy(instance, copy)`; each Expr argument is either used as-is (`maybe_parse(e)`, the
+  documented behaviour of `select` / `from_` / `group_by` …) or copied (`maybe_parse(e, copy=copy)`, `and_(…, copy=copy)`);
+  fresh wrapper nodes (`Where`, `And`, `CTE`, `With`, a set operation …) are allocated; everything is linked with `set`.
+  The model is parametric in that assembly: a list of allocations and `set`s over the fresh material. -/
+
+inductive BOp where
+  | new (id : Id) (cls : String) (raw : Bool)
+  | set (self : Id) (k : String) (v : Value)
+
+def runB (fuel : Nat) : Heap H → List BOp → Option (Heap H)
+  | h, [] => some h
+  | h, .new id cls raw :: r => runB fuel (opNew h id cls raw) r
+  | h, .set self k v :: r =>
+    match opSet fuel h self k v none true with
+    | some h' => runB fuel h' r
+    | none => none
+
+/-- a builder that copies the receiver AND its Expr argument (copy=True threaded to both): the assembly gets the next free
+    id, the receiver's copy and the argument's copy -/
+def builderCopyBoth (fuel : Nat) (h : Heap H) (base : Nat) (inst arg : Id) (assemble : Nat → Id → Id → List BOp) :
+    Option (Heap H × Nat × Id) :=
+  match opDeepcopy fuel h inst base with
+  | none => none
+  | some (h1, nx1, c) =>
+    match opDeepcopy fuel h1 arg nx1 with
+    | none => none
+    | some (h2, nx2, a) =>
+      match runB fuel h2 (assemble nx2 c a) with
+      | none => none
+      | some h3 => some (h3, nx2, c)
+
+/-- `_apply_conjunction_builder(cond, instance=q, arg="where", into=Where)` on a query without a WHERE:
+    `Where(this=cond')` is allocated and installed in the copy -/
+def whereAssembly (nx : Nat) (c a : Id) : List BOp :=
+  [.new nx "where" false, .set nx "this" (.node a), .set c "where" (.node nx)]
+
+/-- `_apply_cte_builder(q, alias, as_=arg)`: `CTE(this=arg')` inside a fresh `With(expressions=[cte])` -/
+def cteAssembly (nx : Nat) (c a : Id) : List BOp :=
+  [.new nx "cte" false, .set nx "this" (.node a), .new (nx + 1) "with" false,
+   .set (nx + 1) "expressions" (.list [.node nx]), .set c "with_" (.node (nx + 1))]
 
 /-! ### histories -/
 
